@@ -55,6 +55,11 @@ FIRST_LOOK = {  # recorded when the seed was first run, before any rule was touc
  "C31-10": "caught", "C31-11": "caught", "C31-12": "caught",
  "C15-10": "missed by C15 (C06's R06c raised a false alarm on the sync.Pool idiom; corrected)", "C15-11": "missed", "C15-12": "caught",
  "C36-10": "caught", "C36-11": "missed", "C36-12": "missed by C36, caught by C35",
+ "C34-10": "missed", "C34-11": "unknown-shape alarms only", "C34-12": "caught",
+ "C32-10": "caught", "C32-11": "caught", "C32-12": "caught",
+ "C18-10": "missed", "C18-11": "missed by C18, caught by C17 (R17d, written a few hours earlier for C17-3)", "C18-12": "caught",
+ "C29-10": "missed", "C29-11": "caught", "C29-12": "caught",
+ "C35-10": "caught", "C35-11": "caught", "C35-12": "caught (as a renameio entry point other than WriteFile: a policy alarm)",
  "C10-10": "missed", "C10-11": "missed", "C10-12": "unknown-shape alarm only (a false one: R10e took `Pos{}` in reset() for state; corrected)",
 }
 def key(d):
